@@ -624,7 +624,8 @@ class UserTrackingManager:
 
         username = tracked_user.user.name
         try:
-            await self._network.send_server_messages(AddUser.Request(username))
+            await asyncio.shield(
+                self._network.send_server_messages(AddUser.Request(username)))
 
         except Exception:
             return RETRY_TIMEOUT_NET_ERROR, "failed to send tracking message", None
@@ -650,7 +651,8 @@ class UserTrackingManager:
     async def _request_untracking(self, tracked_user: TrackedUser):
         username = tracked_user.user.name
         try:
-            await self._network.send_server_messages(RemoveUser.Request(username))
+            await asyncio.shield(
+                self._network.send_server_messages(RemoveUser.Request(username)))
 
         except Exception as exc:
             logger.debug(
